@@ -248,6 +248,20 @@ def product_statistics(chk):
                 dist = compose_qoperations(pab, gab, sab)
                 if tuple(pab.nums_local_outcomes) != want.shape or not coords.close(np.asarray(dist.ps), want.ravel(), 1e-9):
                     chk.violation("statistics:povm_gate_state:%s" % tag, "product measurement statistics are not the product of the factors' statistics", dict(tag=tag))
+                # outcomes addressed by a multi-index (k, l) are the outcomes at the serial position the local counts define,
+                # and their Born probability on the product state is the (k, l) entry of the product statistics
+                n1, n2 = pab.nums_local_outcomes
+                nu_vec = None
+                for k in range(n1):
+                    for l in range(n2):
+                        ser = k * n2 + l
+                        if not np.array_equal(pab.vec((k, l)), pab.vecs[ser]) or not np.array_equal(pab.vec((k, l)), pab.vec(ser)):
+                            chk.violation("multi_index:povm_vec:%s" % tag, "vec((%d, %d)) is not the element at serial index %d" % (k, l, ser), dict(tag=tag))
+                        if not coords.close(pab.matrix((k, l)), pab.matrices()[ser], 1e-12) or not coords.close(np.asarray(pab.matrix_with_sparsity((k, l))), pab.matrices()[ser], 1e-12):
+                            chk.violation("multi_index:povm_matrix:%s" % tag, "matrix((%d, %d)) is not the element at serial index %d" % (k, l, ser), dict(tag=tag))
+                        pr = float(np.real(np.trace(pab.matrix((k, l)) @ compose_qoperations(gab, sab).to_density_matrix())))
+                        if abs(pr - want[k, l]) > 1e-9:
+                            chk.violation("multi_index:povm_born:%s" % tag, "Born probability of outcome (%d, %d) is %.6g, product statistics %.6g" % (k, l, pr, want[k, l]), dict(tag=tag))
                 # product gate acts factor-wise, product states stay product states
                 out = compose_qoperations(gab, sab)
                 want_state = tensor_product(compose_qoperations(ga, sa), compose_qoperations(gb, sb))
@@ -270,6 +284,21 @@ def product_statistics(chk):
                     chk.violation("statistics:mprocess:%s" % tag, "product measurement process statistics are not laid out as its shape %s says" % (shape,), dict(tag=tag))
                 if not mab.is_physical():
                     chk.violation("statistics:unphysical:mprocess:%s" % tag, "tensor product of physical measurement processes is not physical", dict(tag=tag))
+                for k in range(shape[0]):
+                    for l in range(shape[1]):
+                        ser = k * shape[1] + l
+                        ok = np.array_equal(mab.hs((k, l)), mab.hss[ser]) and np.array_equal(mab.hs((k, l)), mab.hs(ser)) \
+                            and coords.close(mab.to_choi_matrix((k, l)), mab.to_choi_matrix(ser), 1e-12) \
+                            and coords.close(mab.to_process_matrix((k, l)), mab.to_process_matrix(ser), 1e-12) \
+                            and coords.close(mab.to_choi_matrix_with_dict((k, l)), mab.to_choi_matrix(ser), 1e-12)
+                        if not ok:
+                            chk.violation("multi_index:mprocess:%s" % tag, "outcome (%d, %d) of the product measurement process is not the outcome at serial index %d in every accessor" % (k, l, ser), dict(tag=tag))
+                        # the state after outcome (k, l), weighted by its probability, is hs((k, l)) applied to the input
+                        sin = tensor_product(*fs)
+                        got = mab.hs((k, l)) @ sin.vec
+                        wantv = ens.prob_dist.ps[ser] * ens.states[ser].vec
+                        if not coords.close(got, wantv, 1e-9):
+                            chk.violation("multi_index:mprocess_state:%s" % tag, "hs((%d, %d)) applied to the input is not p * post-measurement state of that outcome" % (k, l), dict(tag=tag))
         except Exception as e:
             chk.violation("statistics:exception:%s" % tag, "%r" % e, dict(tag=tag))
 
